@@ -59,6 +59,7 @@ class TransitWorld:
         self.key = tape.blob(32, 99)
         self.relay_url = None
         self.relay_factory = None
+        self.relay_factories = []
         self.parties = []
         self.sim.on_end_made = self._end_made
         self.sim.on_write = self._on_write
@@ -69,14 +70,16 @@ class TransitWorld:
         self.log.stop()
 
     # -- relay -------------------------------------------------------------
-    def start_relay(self):
+    def start_relay(self, port=None):
         from wormhole_transit_relay.transit_server import (Transit,
                                                            TransitConnection)
         from wormhole_transit_relay.usage import create_usage_tracker
         usage = create_usage_tracker(blur_usage=None, log_file=None,
                                      usage_db=None)
         world = self
-        self.relay_pairs = []    # (protocol, partner protocol) ever glued
+        port = port or RELAY_PORT
+        if not hasattr(self, "relay_pairs"):
+            self.relay_pairs = []    # (protocol, partner protocol) ever glued
 
         class RecordingTransitConnection(TransitConnection):
             def connect_partner(self_, other):
@@ -88,8 +91,9 @@ class TransitWorld:
         f.noisy = False
         f.transit = Transit(usage, self.sim.reactor.seconds)
         self.relay_factory = f
-        self.sim.reactor.listenTCP(RELAY_PORT, f)
-        self.relay_url = "tcp:%s:%d" % (RELAY_HOST, RELAY_PORT)
+        self.relay_factories.append(f)
+        self.sim.reactor.listenTCP(port, f)
+        self.relay_url = "tcp:%s:%d" % (RELAY_HOST, port)
         return self.relay_url
 
     # -- parties -------------------------------------------------------------
@@ -118,7 +122,7 @@ class TransitWorld:
             owner = getattr(p, "owner", None)
         else:
             fac = end.link.server_port.factory
-            if fac is self.relay_factory:
+            if fac in self.relay_factories:
                 return "relay"
             if fac in self.stranger_factories:
                 return "stranger"
